@@ -514,3 +514,13 @@ Proof.
   split; [right; left; reflexivity|].
   repeat (split; [vm_compute; reflexivity|]). discriminate.
 Qed.
+
+Lemma mapping_is_piece_of_load_lemma : forall ef bias m a p,
+  In p (e_progs ef) -> loaded_at ef bias m a p = true ->
+  exists img, In img (load ef bias) /\ pieceb m img = true.
+Proof.
+  intros ef bias m a p Hin H. exists (image p bias).
+  unfold loaded_at in H.
+  repeat (apply andb_true_iff in H; destruct H as [H ?]).
+  split; [apply image_in_load; assumption | assumption].
+Qed.
